@@ -300,6 +300,17 @@ impl InMemoryZoneDiffBuilder {
         self.removed.insert((owner, rtype), rrset);
     }
 
+    /// Drop what has been recorded for an RRset so far.
+    ///
+    /// Changes are recorded relative to the version of the zone that is
+    /// being changed. If an RRset is changed more than once, only the last
+    /// change describes the difference.
+    pub(crate) fn forget(&mut self, owner: &StoredName, rtype: Rtype) {
+        let key = (owner.clone(), rtype);
+        self.added.remove(&key);
+        self.removed.remove(&key);
+    }
+
     /// Exchange this builder instnace for an immutable [`ZoneDiff`].
     ///
     /// The start serial should be the zone version to which the diffs should
